@@ -1,0 +1,18 @@
+//go:build !verif
+
+package internal
+
+// Verification hooks (build tag verif). In normal builds they are empty and
+// inlined away; they never change behaviour.
+
+func verifNoMaintenance() bool { return false }
+
+func verifTickDone() {}
+
+func verifExpireYield[K comparable, V any](entry *Entry[K, V]) {}
+
+func verifBufferYield(point int) {}
+
+func verifSecondaryEnqueued() {}
+
+func verifSecondaryProcessed() {}
